@@ -3,13 +3,14 @@ import Okane.Lemmas.C05ImageDecl
 /-!
 # The image property of the ledger parser (C05): what the parser returns is printable
 
-`C05_image`: for every text `t` with `TextOK t` (no white space other than blank, tab, LF, CR; every `(` closed later in
-the text — both decidable, see `C05ImageBase`), every entry `e` that `parse_ledger` returns satisfies, after the meaning
-normalisation `canonEntry`, the printer's well-formedness predicate `wfEntry` and has no negative literal in operand
-position (`plainV` on every value expression of the entry) — exactly the hypotheses of `C05_entry` / `C05_roundtrip`.
+`C05_image`: for every text `t` with `TextOK t` (no white space other than blank, tab, LF, CR — decidable, see
+`C05ImageBase`), every entry `e` that `parse_ledger` returns satisfies, after the meaning normalisation `canonEntry`, the
+printer's well-formedness predicate `wfEntry` and has no negative literal in operand position (`plainV` on every value
+expression of the entry) — exactly the hypotheses of `C05_entry` / `C05_roundtrip`.
 
-Neither hypothesis can be dropped (`image_needs_asciiSpaceOnly`, `image_needs_parensClosed`: concrete texts that satisfy
-one hypothesis, violate the other, parse, and yield an entry that is not `wfEntry`).
+The hypothesis cannot be dropped (`image_needs_asciiSpaceOnly`: concrete texts that violate it, parse, and yield an entry
+that is not `wfEntry`).  The former second hypothesis `parensClosed` is gone: since `paren_str` must close on its line, a
+payee that begins with an unclosed `(` is printable (`image_unclosed_paren`, the former necessity witness).
 -/
 set_option linter.unusedSimpArgs false
 set_option linter.unusedVariables false
@@ -149,8 +150,8 @@ theorem parsedIter_image (whole : List Char) : ∀ (n : Nat) (i : List Char) (ac
     · simp only [Prod.mk.injEq] at h; rw [← h.1]; exact hacc
     · simp only [Prod.mk.injEq] at h; rw [← h.1]; exact hacc
 
-/-- **C05_image** (the image property of the ledger parser, on texts without exotic white space and with closed
-parentheses): every entry `parse_ledger` returns is, after `canonEntry`, a tree the printer prints unambiguously, and plain -/
+/-- **C05_image** (the image property of the ledger parser, on texts without exotic white space): every entry
+`parse_ledger` returns is, after `canonEntry`, a tree the printer prints unambiguously, and plain -/
 theorem C05_image (t : List Char) (es : List Entry) (ht : TextOK t) (h : parseEntries t = .ok es) :
     ∀ e ∈ es, EntryOK e := by
   unfold parseEntries at h
@@ -226,34 +227,54 @@ def witFF : List Char :=
 /-- U+3000 before a `*`: the account `*x` of an uncleared posting -/
 def witStar : List Char :=
   ['2','0','2','4','/','0','1','/','0','1',' ','x','\n',' ','\u3000','*','x','\n']
-/-- a payee that begins with an unclosed `(` -/
+/-- a payee that begins with an unclosed `(` (the witness that `parensClosed` was needed before `paren_str` had to close
+on its line) -/
 def witParen : List Char := "2024/01/01 (abc\n".toList
+/-- the same before an entry that holds a `)`: formerly the code ran across the line end to that `)` -/
+def witParen2 : List Char := "2024/01/01 (abc\n  A  1 USD\n\naccount X)\n".toList
+/-- `(` closed on the line only after a `;`: the code is `abc ; x`, not a payee `(abc` with a comment -/
+def witParen3 : List Char := "2024/01/01 * (abc ; x) y\n".toList
 
-/-- `asciiSpaceOnly` cannot be dropped: texts with closed parentheses that parse to an entry that is not `wfEntry` -/
+/-- `asciiSpaceOnly` cannot be dropped: texts that parse to an entry that is not `wfEntry` -/
 theorem image_needs_asciiSpaceOnly :
-    (parensClosed witF28 = true ∧ asciiSpaceOnly witF28 = false ∧ imageOk witF28 = false) ∧
-    (parensClosed witF27 = true ∧ asciiSpaceOnly witF27 = false ∧ imageOk witF27 = false) ∧
-    (parensClosed witFF = true ∧ asciiSpaceOnly witFF = false ∧ imageOk witFF = false) ∧
-    (parensClosed witStar = true ∧ asciiSpaceOnly witStar = false ∧ imageOk witStar = false) := by
+    (asciiSpaceOnly witF28 = false ∧ imageOk witF28 = false) ∧
+    (asciiSpaceOnly witF27 = false ∧ imageOk witF27 = false) ∧
+    (asciiSpaceOnly witFF = false ∧ imageOk witFF = false) ∧
+    (asciiSpaceOnly witStar = false ∧ imageOk witStar = false) := by
   decide +kernel
 
-/-- `parensClosed` cannot be dropped -/
-theorem image_needs_parensClosed :
-    asciiSpaceOnly witParen = true ∧ parensClosed witParen = false ∧ imageOk witParen = false := by
-  decide +kernel
+/-- regression: the texts with an unclosed `(` at payee position parse, and what they parse to is printable
+(by `C05_image`; the first one also by evaluation) -/
+theorem image_unclosed_paren :
+    ((parseEntries witParen).isOk = true ∧ imageOk witParen = true) ∧
+    ((parseEntries witParen2).isOk = true ∧ imageOk witParen2 = true) ∧
+    ((parseEntries witParen3).isOk = true ∧ imageOk witParen3 = true) :=
+  ⟨⟨by decide +kernel, imageOk_of_textOK _ (by decide +kernel)⟩,
+   ⟨by decide +kernel, imageOk_of_textOK _ (by decide +kernel)⟩,
+   ⟨by decide +kernel, imageOk_of_textOK _ (by decide +kernel)⟩⟩
+
+example : imageOk witParen = true := by decide +kernel
+
+/-- what they parse to: the payee `(abc`; the code `abc ; x` -/
+example : (match parseEntries witParen2 with
+    | .ok [.txn t, .account n _] => t.code == none && t.payee == "(abc" && t.posts.length == 1 && n == "X)"
+    | _ => false) = true := by decide +kernel
+example : (match parseEntries witParen3 with
+    | .ok [.txn t] => t.code == some "abc ; x" && t.payee == "y" && t.clear == ClearState.cleared
+    | _ => false) = true := by decide +kernel
 
 /-- the image property without hypothesis on the text is false -/
 theorem not_image_unconditional : ¬ ∀ (t : List Char) (es : List Entry), parseEntries t = .ok es → ∀ e ∈ es, EntryOK e := by
   intro h
-  have hw : imageOk witParen = false := image_needs_parensClosed.2.2
+  have hw : imageOk witF28 = false := image_needs_asciiSpaceOnly.1.2
   unfold imageOk at hw
-  cases hp : parseEntries witParen with
+  cases hp : parseEntries witF28 with
   | ok es =>
     rw [hp] at hw
     have hall : (es.all fun e => wfEntry (canonEntry e) && (exprsOfEntry (canonEntry e)).all plainV) = true := by
       simp only [List.all_eq_true, Bool.and_eq_true]
       intro e he
-      obtain ⟨h1, h2⟩ := h witParen es hp e he
+      obtain ⟨h1, h2⟩ := h witF28 es hp e he
       exact ⟨h1, List.all_eq_true.mp h2⟩
     simp only [hall] at hw
     cases hw
